@@ -14,7 +14,7 @@ RULE = ("(a) Same tokenizer workload as C01 (exhaustive small scope + recipes 'c
         "'initial phase reaching max_length' + structured random); oracle INV/C02: len<=max_length; len<min_length "
         "only in non-strict mode for a token adjacent to a full-length (cut) predecessor.  Non-trivial = >=1 token; "
         "distinct = distinct (string, tuple).  (b) Constructor grid, exhaustive: min_length,max_length,"
-        "max_continuous_silence,init_min in [-2,6], init_max_silence in [-1,3], mode in [-1,8] (328050 tuples): "
+        "max_continuous_silence,init_min in [-2,6], init_max_silence in [-1,3], mode in [-9,9] (623295 tuples): "
         "ValueError iff the statement's predicate rejects; any other exception type is a violation.")
 ASSUMPTIONS = C = [
     "validators are pure functions of the frame content",
@@ -38,7 +38,7 @@ def constructor_grid(ctx):
         if not ctx.mine(idx):
             continue
         for ims in range(-1, 4):
-            for mode in range(-1, 9):
+            for mode in range(-9, 10):
                 exp = expected_reject(min_len, max_len, max_sil, init_min, mode)
                 try:
                     StreamTokenizer(lambda f: True, min_len, max_len, max_sil, init_min=init_min,
@@ -124,7 +124,7 @@ def replay(ctx, case):
 def inconclusive(merged, tier):
     c = merged["counters"]
     out = []
-    if c.get("constructor_tuples", 0) != 9 ** 4 * 5 * 10:
+    if c.get("constructor_tuples", 0) != 9 ** 4 * 5 * 19:
         out.append(f"constructor grid incomplete: {c.get('constructor_tuples', 0)}")
     for k in ("tokens_observed", "tokens_cut_at_max_length", "short_remainder_tokens", "constructor_accepted", "constructor_ValueError"):
         if c.get(k, 0) == 0:
@@ -133,5 +133,5 @@ def inconclusive(merged, tier):
 
 
 def evidence_extra(merged, tier):
-    return {"exhaustive_core": "constructor grid 9^4*5*10 = 328050 tuples, complete; tokenizer small scope as C01",
+    return {"exhaustive_core": "constructor grid 9^4*5*19 = 623295 tuples, complete; tokenizer small scope as C01",
             "exhaustive_core_complete": not merged["truncated_by_time"]}
